@@ -128,6 +128,16 @@ for k, v in addenda4.items():
     e = checks[k]
     checks[k] = (e[0], e[1], e[2] + v, e[3], e[4])
 
+# extensions after the fifth round
+addenda5 = {'C01': ' Values include typed nil pointers whose type has a nil-tolerant String method; every clone is kept and re-inspected after all later clones.',
+ 'C07': ' Every sequence of three bursts with 1-3 values in the overflow buffer, each drained before the next, under two sync.Pool policies.',
+ 'C08': ' Sequential part on the same build: every history over {Offer, Put, Poll, Take, Push, Pop} up to depth 7 (thorough 9) on a ConcurrentQueue and a ConcurrentStack sharing one LinkedListQueue against an ideal deque, and fill/drain bursts up to 1200 values, under the three sync.Pool policies.',
+ 'C17': ' A deserializer that keeps the byte slice it is given: the bytes of earlier responses are re-inspected after later requests.',
+ 'C18': ' An operation that replaces the Transport of the current client and hands the same client to SetHTTPClient again; an interceptor that makes a request through the same instance (the inner request passes the whole chain).'}
+for k, v in addenda5.items():
+    e = checks[k]
+    checks[k] = (e[0], e[1], e[2] + v, e[3], e[4])
+
 not_yet = "check not built yet in this round (see DESIGN.md §9 build order); no claim made"
 
 m = {
